@@ -559,6 +559,7 @@ func (r *runner) runWF() {
 	lap("http cases")
 	r.filtered()
 	r.nilOutcomes()
+	r.serverNotifications()
 	lap("filtered, nil outcomes")
 	r.longTexts()
 	lap("long texts")
@@ -1108,6 +1109,8 @@ func (r *runner) runSurvive(only string) {
 		if k == "st-json" || k == "sse" || k == "stdio" {
 			r.malformedResponses(k)
 			lap("malformed responses")
+			r.responseRace(k)
+			lap("response race")
 		}
 		r.handshakeStorm(k)
 		lap("storm")
